@@ -3,7 +3,6 @@
 # #if defined(__aarch64__)||defined(__arm__)... and is compiled out on this x86-64 target).
 B = dict(prop='C14', overlays=['contracts/crc32.ovl'], harness='harness/C14/crc32.c', includes=['.'],
          defines=['CQV_MEMCPY_EXACT=16'], wip=True)
-INIT_LOOPS = ['crc32_init_tables.0:257', 'crc32_init_tables.1:9', 'crc32_init_tables.2:9', 'crc32_init_tables.3:257']
 STATE = 'crc32.c module state is {flag==0} or {flag==1, tables as left by crc32_init_tables}: both statics are file-local and written only by crc32_init_tables (harness cqv_module_state)'
 SLIDES = ['cqv_lemma_slide%d' % k for k in range(8)]
 
@@ -35,9 +34,9 @@ JOBS += [
          replace=SLIDES + ['cqv_spec_byte'], unwind=257, functions=[], est_s=30, timeout=300,
          **dict(B, defines=B['defines'] + ['CQV_PROVE_BLOCK8=1'])),
     # 3.+4.+5. the real function: both loops in lockstep with the ghost bit-serial register, unbounded length
-    dict(name='c14_crc32_slicing_by_8', entry='h_slicing', enforce='crc32_slicing_by_8',
-         replace=['cqv_spec_block8', 'cqv_spec_byte'], unwindset=INIT_LOOPS + ['memcpy.0:17'], min_loop_obligations=2,
-         functions=['crc32_slicing_by_8', 'crc32_init_tables'], trusted=[STATE], est_s=60, timeout=300, **B),
+    dict(name='c14_crc32_slicing_by_8', entry='h_slicing', loop_contracts=True, unwind=257,
+         replace=['cqv_spec_block8', 'cqv_spec_byte'], unwindset=['memcpy.0:17'], min_loop_obligations=2,
+         functions=['crc32_slicing_by_8', 'crc32_init_tables'], trusted=[STATE], est_s=120, timeout=400, **B),
     dict(name='c14_crc32', entry='h_crc32', enforce='carquet_crc32', replace=['crc32_slicing_by_8'],
          loop_contracts=False, **B),
     dict(name='c14_crc32_update', entry='h_crc32_update', enforce='carquet_crc32_update', replace=['crc32_slicing_by_8'],
